@@ -27,7 +27,8 @@ EXPLANATION = (
     "the loop is entered is the neutral element of that operator (ablogFalse() / ablogTrue()). S5 (known-condition context): every "
     "ablogAndPush(&ctx, &save, test, polarity) is followed by the matching ablogAndPop before the next push in the same function "
     "(or, for the array idiom, popped by a later loop), and two pushes for the same test in one function have opposite polarity "
-    "(then-branch true, else-branch false). Not decided: whether the type checker finds every violation.")
+    "(then-branch true, else-branch false). S6: in tfSatMap0 all four component comparisons of a function type (argument and "
+    "return, dependent and non-dependent branch) pass the inner mask computed by tfSatInner(mask). Not decided: whether the type checker finds every violation.")
 
 FROZEN = os.path.join(os.path.dirname(__file__), "frozen")
 COUNTING = {"comsgError", "comsgNError", "comsgVError", "comsgFatal", "comsgVFatal"}
@@ -383,6 +384,36 @@ def s45(rep, dig):
     rep.floor("known-condition context pushes", npush, 12)
 
 
+def s6(rep):
+    """Function types: argument and return positions are compared with the inner mask (no value embeddings) in both the
+    dependent and the non-dependent branch of tfSatMap0."""
+    f = common.extract("tfsat.c", trees=["tfSatMap0"])
+    fn = f.func("tfSatMap0")
+    inner = None
+    for x in walk(fn["body"]):
+        for d in (x.get("decls", []) if x["k"] == "DeclStmt" else []):
+            if d.get("init") is not None and d.get("t") == "SatMask":
+                txt = common.render(d["init"])
+                # tfSatInner(m) expands to a mask expression that clears the embedding bits of m
+                if "mask" in txt and ("&" in txt):
+                    inner = d["n"]
+    if inner is None:
+        raise AnalysisBroken("tfSatMap0: `SatMask mask0 = tfSatInner(mask)` not found")
+    cs = [c for c in calls(fn["body"], "tfSat")]
+    if len(cs) < 4:
+        raise AnalysisBroken("tfSatMap0: expected the four component comparisons (argument and return, dependent and non-dependent)")
+    for i, c in enumerate(cs, 1):
+        m = common.render(strip(c["c"][1]))
+        key = "map-component-inner-mask@%d" % i
+        if m == inner:
+            rep.ok("S6", key, nontrivial=(i == 1))
+        else:
+            rep.violation("S6", key, "tfsat.c:%d (tfSatMap0)" % c["l"],
+                          "a component of a function type (%s against %s) is compared with `%s` instead of the inner mask %s: value "
+                          "embeddings (unary to tuple, any to none, ...) are then accepted inside a function type, so a function of the wrong "
+                          "type is accepted as an argument" % (common.render(strip(c["c"][2]))[:30], common.render(strip(c["c"][3]))[:30], m, inner))
+
+
 def digest(f):
     return {"s1": s1_digest(f), "s45": s45_digest(f)}
 
@@ -394,6 +425,7 @@ def run(tier, only=None):
     rep.analysed_count("translation units", len(units))
     s1(rep, dig)
     s45(rep, dig)
+    s6(rep)
     f = common.extract("axlcomp.c", all_cfg=True)
     s2(rep, f)
     s3(rep, f)
